@@ -26,7 +26,7 @@ open Generated.C06 Finset C06L
 theorem gen_qForSampling (d p w o : Rat) : qForSampling d p w o = Model.C06.qForSampling d p w o := by
   simp only [qForSampling, Model.C06.qForSampling]
 
-private theorem shift_ite (sx sy o : Rat) :
+theorem shift_ite (sx sy o : Rat) :
     (if sx ≠ 0 ∨ sy ≠ 0 then sx / o else sx) = sx / o ∧ (if sx ≠ 0 ∨ sy ≠ 0 then sy / o else sy) = sy / o := by
   by_cases h : sx ≠ 0 ∨ sy ≠ 0
   · simp [h]
